@@ -331,9 +331,10 @@ class PolygonFilter(object):
     @staticmethod
     def remove(unique_id):
         """Remove a polygon filter from `PolygonFilter.instances`"""
-        for p in PolygonFilter.instances:
-            if p.unique_id == unique_id:
-                PolygonFilter.instances.remove(p)
+        # Do not use `list.remove`, because it compares the filters with
+        # `__eq__` (same shape), not by identity.
+        PolygonFilter.instances[:] = [p for p in PolygonFilter.instances
+                                      if p.unique_id != unique_id]
 
     def save(self, polyfile, ret_fobj=False):
         """Save all data to a text file (appends data if file exists).
